@@ -328,24 +328,32 @@ def _selective_in(rep, prog, rm, found):
     fi = prog.index(rm)
     # l2 local = squared_norm of (n_a - n_b) with n_a/n_b = get_node(e.n1()/n2()) of the edge variable passed to split/merge
     def is_len2_of(expr, edge_did):
+        """expr is |x(e.n1) - x(e.n2)|^2 of the edge variable: a squared_norm() call (directly, or the initialiser of the local
+        named by expr) whose operand mentions, through single-assignment locals, both end nodes of that edge"""
+        from ..model import def_chain
         e = strip(expr)
-        if e.get("k") != "DeclRefExpr":
-            return False
-        for v in walk(rm["body"]):
-            if v.get("k") == "Var" and v.get("did") == e["ref"]["did"] and isinstance(v.get("init"), dict):
-                i = strip(v["init"])
-                if i.get("k") == "CXXMemberCallExpr" and i.get("callee") == "vec3::squared_norm":
-                    ends = set()
-                    for x in walk(call_obj(i)):
-                        if x.get("k") == "DeclRefExpr":
-                            for w in walk(rm["body"]):
-                                if w.get("k") == "Var" and w.get("did") == x["ref"]["did"] and isinstance(w.get("init"), dict):
-                                    for y in walk(w["init"]):
-                                        if y.get("k") == "CXXMemberCallExpr" and y.get("callee") in ("edge::n1", "edge::n2"):
-                                            o = strip(call_obj(y))
-                                            if o.get("k") == "DeclRefExpr" and o["ref"]["did"] == edge_did:
-                                                ends.add(y["callee"])
-                    return ends == {"edge::n1", "edge::n2"}
+        while e.get("k") == "ParenExpr" and e.get("c"):
+            e = strip(e["c"][0])
+        cands = []
+        if e.get("k") == "DeclRefExpr":
+            for v in walk(rm["body"]):
+                if v.get("k") == "Var" and v.get("did") == e["ref"]["did"] and isinstance(v.get("init"), dict):
+                    cands.append(strip(v["init"]))
+        else:
+            cands.append(e)
+        for i in cands:
+            while i.get("k") == "ParenExpr" and i.get("c"):
+                i = strip(i["c"][0])
+            if i.get("k") == "CXXMemberCallExpr" and i.get("callee") == "vec3::squared_norm":
+                ends = set()
+                for d_ in def_chain(rm, call_obj(i), depth=5):
+                    for y in walk(d_):
+                        if y.get("k") == "CXXMemberCallExpr" and y.get("callee") in ("edge::n1", "edge::n2"):
+                            o = strip(call_obj(y))
+                            if o.get("k") == "DeclRefExpr" and o["ref"]["did"] == edge_did:
+                                ends.add(y["callee"])
+                if ends == {"edge::n1", "edge::n2"}:
+                    return True
         return False
     for callee, op, field, extra in (("local_mesh_refiner::split_edge", ">", "local_mesh_refiner::l_max_squared_", None),
                                      ("local_mesh_refiner::merge_edge", "<", "local_mesh_refiner::l_min_squared_", "local_mesh_refiner::can_be_merged")):
@@ -355,18 +363,18 @@ def _selective_in(rep, prog, rm, found):
             ed = strip(call_args(n)[0])
             ok_len = ok_extra = extra is None
             ok_len = False
-            for cond, pol in fi.guards(n):
-                if not pol:
-                    continue
-                for x in walk(cond):
-                    if x.get("k") == "BinaryOperator" and x.get("op") == op:
-                        l, r = x["c"][0], strip(x["c"][1])
-                        if r.get("k") == "MemberExpr" and r["ref"].get("qn") == field and ed.get("k") == "DeclRefExpr" and is_len2_of(l, ed["ref"]["did"]):
-                            ok_len = True
-                    if extra and x.get("k") == "CXXMemberCallExpr" and x.get("callee") == extra:
-                        a0 = strip(call_args(x)[0])
-                        if a0.get("k") == "DeclRefExpr" and ed.get("k") == "DeclRefExpr" and a0["ref"]["did"] == ed["ref"]["did"]:
-                            ok_extra = True
+            # atomic facts that hold at the call (a test that only appears inside a disjunction is not one of them)
+            from ..model import facts_at
+            INV = {">": "<=", "<": ">="}
+            for x, truth in facts_at(rm, fi, n):
+                if x.get("k") == "BinaryOperator" and ((x.get("op") == op and truth) or (x.get("op") == INV[op] and not truth)):
+                    l, r = x["c"][0], strip(x["c"][1])
+                    if r.get("k") == "MemberExpr" and r["ref"].get("qn") == field and ed.get("k") == "DeclRefExpr" and is_len2_of(l, ed["ref"]["did"]):
+                        ok_len = True
+                if extra and truth and x.get("k") == "CXXMemberCallExpr" and x.get("callee") == extra:
+                    a0 = strip(call_args(x)[0])
+                    if a0.get("k") == "DeclRefExpr" and ed.get("k") == "DeclRefExpr" and a0["ref"]["did"] == ed["ref"]["did"]:
+                        ok_extra = True
             if ok_len and ok_extra:
                 rep.ok("C11.selective", prog, rm, n, "%s(e) only under |e|^2 %s %s%s" % (callee.split("::")[1], op, field.split("::")[1], " and can_be_merged(e)" if extra else ""))
             else:
